@@ -33,6 +33,8 @@ EXPLANATION = (
   ' (LINT-l) no tuple / list / set display of the anchored modules lists the same computed component twice and no dict display repeats a key (a key or fingerprint built that way cannot tell apart what the missing component would have);'
   ' (STATE-share) no assignment stores a container field of one object (a field the package updates in place) into a field of another object without copying it, so an in-place update of one object never changes another;'
   " (ITEM-source) an object built once per item of an inner loop is filled only with values that derive from that item or do not vary with the loops, never with a value of the enclosing container standing where the item's own belongs;"
+  ' (LOOP-break) no loop over the items of a collection is left by a branch that does nothing but `break` on a test about the item (end-of-input sentinels, flags set in the loop body and searches whose variable is read afterwards excepted): an item that is to be skipped does not end the processing of the items after it;'
+  ' (FIN-regex) the WebVTT timestamp, percentage and line-number patterns accept / reject the probe values written from the WebVTT syntax (a line number 0 or -0 is a number);'
 )
 RULE_TEXT = "per call site / function / enum / printed sample"
 UNDECIDED = ["cue-setting geometry (line numbers <= 0, position with size)", "tag scoping", "region sharing for equal settings"]
@@ -107,6 +109,10 @@ def check_fmt(ctx):
         cur_key = n.value.args[0].value
       if isinstance(n, ast.Compare) and cur_key is not None and len(n.ops) == 1 and isinstance(n.ops[0], (ast.Eq, ast.In)):
         c = n.comparators[0]
+        if isinstance(c, (ast.Name, ast.Attribute)):
+          c = ix.deref(reader.module, c, cls=reader.cls, func=reader) or c       # a module-level table: membership in a dict is membership in its keys
+        if isinstance(c, ast.Dict):
+          c = ast.Tuple(elts=[k for k in c.keys if k is not None], ctx=ast.Load())
         vals = [c.value] if isinstance(c, ast.Constant) else [e.value for e in getattr(c, "elts", []) if isinstance(e, ast.Constant)]
         vals = [v for v in vals if isinstance(v, str)]
         if vals:
@@ -525,4 +531,5 @@ def run(ctx):
   check_position_box(ctx)
   check_level_owners(ctx)
   common.check_numeric_fields(ctx, ["ttconv.vtt.reader", "ttconv.vtt.tokenizer", "ttconv.vtt.cue"])
+  common.check_regex_probes(ctx, ["ttconv.vtt.reader"], floor=3)
   common.check_history_independence(ctx, ["ttconv.vtt.reader", "ttconv.vtt.tokenizer", "ttconv.utils"])
